@@ -44,7 +44,22 @@ inline ParseOptions decodeOptions(const std::string& spec)
 #undef X
     LanguageDialect::Std std = LanguageDialect::Std::C11;
     if (!f[0].empty()) std = static_cast<LanguageDialect::Std>(f[0][0] - '0');
+    // the route by which the options object gets its dialect and extensions (second character of the first field):
+    //   none / 'c': the constructor;  'w': default-constructed, then withLanguageDialect + withLanguageExtensions;
+    //   'x': constructed with ANOTHER standard and default extensions, then both with-ers (what is observed must be what was selected last)
+    char route = f[0].size() > 1 ? f[0][1] : 'c';
     ParseOptions o{LanguageDialect(std), ext};
+    if (route == 'w') {
+        ParseOptions w;
+        w.withLanguageDialect(LanguageDialect(std)).withLanguageExtensions(ext);
+        o = w;
+    }
+    else if (route == 'x') {
+        auto other = static_cast<LanguageDialect::Std>((static_cast<int>(std) + 2) % 4);
+        ParseOptions w{LanguageDialect(other)};
+        w.withLanguageDialect(LanguageDialect(std)).withLanguageExtensions(ext);
+        o = w;
+    }
     if (!f[1].empty()) o.enable_keywordRecognition(f[1][0] == '1');
     if (!f[2].empty()) o.setCommentMode(static_cast<ParseOptions::CommentMode>(f[2][0] - '0'));
     if (!f[3].empty()) o.setDisambiguationMode(static_cast<ParseOptions::DisambiguationMode>(f[3][0] - '0'));
